@@ -356,6 +356,7 @@ class Explorer:
                     break
             self.stats["transitions"] += ntrans
             if aborted:
+                self.seen = seen
                 self.stats["levels"].append({"depth": depth + 1, "new_states": len(nxt), "transitions": ntrans, "complete": False})
                 # restart the pool: imap_unordered was abandoned mid-way
                 self.pool.terminate(); self.pool.join()
@@ -369,6 +370,7 @@ class Explorer:
             frontier = nxt
             self.stats["states"] = len(seen)
         self.samples = self._pick_samples(seen)
+        self.seen = seen
         self.stats["frontier_left"] = len(frontier)
         if not frontier:
             self.stats["exhaustive"] = True
